@@ -1,7 +1,7 @@
 """C07 — the operative config records exactly what Gin supplied and suffices to replay."""
 import gen_gin as G
 import gindom
-from gindom import to_driver, compare  # noqa: F401
+from gindom import to_driver  # noqa: F401
 from props.c01 import tally, _overlay  # noqa: F401
 from encode import decode
 
@@ -32,7 +32,8 @@ def gen_case(rng):
   scopes = [focus[:i] for i in range(len(focus) + 1)] + [['c']]
   body = []
   for _ in range(rng.randint(0, 8)):
-    val = {'o': rng.randint(1, 3)} if rng.random() < 0.12 else None
+    val = (({'o': rng.randint(1, 3)} if rng.random() < 0.7 else {'f': rng.choice(['inf', 'nan']), 'fin': False})
+           if rng.random() < 0.15 else None)
     b = G.gen_bind(rng, rng.choice(regs), rng.choice(scopes), value=val)
     if b:
       if val is not None:
@@ -50,10 +51,68 @@ def gen_case(rng):
   return {'dom': 'gin', 'ops': ops, '_fixed_store': fixed_store}
 
 
+MACRO_VALUES = [None, 0, False, {'s': ''}, {'l': []}, {'d': []}, 7, {'s': 'relu'}, {'l': [1, {'t': [2]}]},
+                {'f': 'inf', 'fin': False}, {'o': 2}]
+
+
+def gen_macro_case(rng):
+  """Macros (also bound to falsy or unrepresentable values) used by called configurables: the operative
+  config must define every macro that was used, and suffice to replay."""
+  consumers = G.gen_registry(rng, rng.randint(1, 2))
+  for c in consumers:
+    for plist in (c['sig']['pos'], c['sig']['kwonly']):
+      for p in plist:
+        if p[1] is None and p[0] not in ('self', 'cls'):
+          p[1] = {'v': None}
+  ops = list(consumers)
+  names = ['m1', 'm2', 'a/b']
+  for nm in rng.sample(names, rng.randint(1, 3)):
+    ops.append({'op': 'bind', 'scope': nm, 'sel': 'gin.macro', 'arg': 'value', 'val': rng.choice(MACRO_VALUES),
+                '_form': 'macro_key', 'block': False})
+  defined = [o['scope'] for o in ops if o['op'] == 'bind']
+  scopes = [[], ['a'], ['a', 'b']]
+  for _ in range(rng.randint(1, 4)):
+    c = rng.choice(consumers)
+    cls = [n for n, k in G.param_classes(c).items() if k == 'valid']
+    if not cls:
+      continue
+    leaf = {'macro': rng.choice(defined)}
+    val = leaf if rng.random() < 0.7 else {'l': [leaf, 3]}
+    ops.append({'op': 'bind', 'scope': '/'.join(rng.choice(scopes)), 'sel': c['_selector'], 'arg': rng.choice(cls),
+                'val': val, '_form': 'text', 'block': False})
+  for _ in range(rng.randint(1, 3)):
+    c = rng.choice(consumers)
+    call = G.gen_call(rng, c, G.gen_enter(rng, rng.choice(scopes)), w_bad=0.0)
+    call['op'] = 'ecall'
+    ops.append(call)
+  ops.append({'op': 'opdoc'})
+  return {'dom': 'gin', 'ops': ops, '_kind': 'macro', '_fixed_store': True}
+
+
 def gen_cases(rng, tier, boost=1):
   n = (900 if tier == 'quick' else 25000) * boost
-  for _ in range(n):
-    yield gen_case(rng)
+  for k in range(n):
+    yield gen_macro_case(rng) if k % 5 == 4 else gen_case(rng)
+
+
+def compare(case, impl, model):
+  if case.get('_kind') != 'macro':
+    return gindom.compare(case, impl, model)
+  from props.c06 import _plain
+  mo = model.get('out')
+  if mo is None:
+    return f'driver error: {model}'
+  why = gindom.compare(dict(case, ops=case['ops'][:-1]), {'out': impl['out'][:-1]}, {'out': mo[:-1]})
+  if why:
+    return why
+  m = mo[-1].get('ok')
+  want = {'macros': [[a, _plain(b)] for a, b in m['macros']],
+          'sections': [[(k.split('|')[0] + '/' if k.split('|')[0] else '') + k.split('|')[1], [[p, _plain(v)] for p, v in ps]]
+                       for k, ps in m['sections']]}
+  got = impl['out'][-1].get('ok')
+  if got != want:
+    return f'structure of operative_config_str(): impl {got} model {want}'
+  return None
 
 
 def run_impl(case):
@@ -61,23 +120,36 @@ def run_impl(case):
   from encode import Opaque
   Opaque._all.clear()  # pylint: disable=protected-access
   s = gindom.Session()
-  out = [s.run_op(op) for op in case['ops']]
+  macro_case = case.get('_kind') == 'macro'
+  out = [s.run_op(op) for op in (case['ops'][:-1] if macro_case else case['ops'])]
   gin = s.gin
   text = gin.operative_config_str()
+  if macro_case:
+    from props.c06 import ordered_doc
+    macros, sections = ordered_doc(s, text)
+    out.append({'ok': {'macros': macros, 'sections': [[sc[0], [[p, v] for p, v, _ in sc[1]]] for sc in sections]}})
   replay = {'text_parses': True}
+  nlog = len(s.log)
+  first_log = [[sel, rec['scope'], rec['params'], rec['extra'], rec['kw']] for sel, rec in s.log]
   try:
     gin.clear_config()
     gin.parse_config(text)
+  except Exception as e:  # pylint: disable=broad-except
+    return {'out': out, 'replay': {'text_parses': False, 'error': f'{type(e).__name__}: {e}'[:400], 'text': text}}
+  try:
     second = []
     for op, res in zip(case['ops'], out):
-      if op['op'] == 'call':
+      if op['op'] in ('call', 'ecall'):
         second.append(s.run_op(op))
     replay['calls'] = second
+    replay['first_log'] = first_log
+    replay['second_log'] = [[sel, rec['scope'], rec['params'], rec['extra'], rec['kw']] for sel, rec in s.log[nlog:]]
     replay['same_text'] = gin.operative_config_str() == text
     if not replay['same_text']:
       replay['text1'], replay['text2'] = text, gin.operative_config_str()
   except Exception as e:  # pylint: disable=broad-except
-    replay = {'text_parses': False, 'error': f'{type(e).__name__}: {e}'[:400], 'text': text}
+    replay['replay_error'] = f'{type(e).__name__}: {e}'[:400]
+    replay['text1'] = text
   return {'out': out, 'replay': replay}
 
 
@@ -97,6 +169,8 @@ def _representable(v):
 
 def oracle(case, impl):
   """C07 stated directly on the parsed operative_config_str()."""
+  if case.get('_kind') == 'macro':
+    return macro_oracle(case, impl)
   regs, binds = {}, {}
   record = {}     # (scope_str, sel) -> {param: value}   what the property says must be listed
   all_repr = True
@@ -151,6 +225,8 @@ def oracle(case, impl):
     return f'the operative config text does not parse back: {rp.get("error")}'
   if all_repr and case.get('_fixed_store'):
     firsts = [r for o, r in zip(case['ops'], impl['out']) if o['op'] == 'call']
+    if rp.get('replay_error'):
+      return f'replaying the calls on the parsed operative config failed: {rp["replay_error"]}'
     for j, (a, b) in enumerate(zip(firsts, rp['calls'])):
       if a.get('err') == 'RuntimeError' and 'missing' in a:
         continue  # D23: failed on a missing REQUIRED
@@ -161,7 +237,29 @@ def oracle(case, impl):
   return None
 
 
+def macro_oracle(case, impl):
+  rp = impl['replay']
+  unrepr = any(o['op'] == 'bind' and not _representable(o['val']) for o in case['ops'])
+  if not rp.get('text_parses'):
+    return f'the operative config text does not parse back: {rp.get("error")}\n{rp.get("text")}'
+  if unrepr:
+    return None
+  firsts = [r for o, r in zip(case['ops'], impl['out']) if o['op'] == 'ecall']
+  if any('err' in a for a in firsts):
+    return None
+  if rp.get('replay_error'):
+    return f'replaying the calls on the parsed operative config failed: {rp["replay_error"]}\n{rp.get("text1")}'
+  if gindom.strip(rp['first_log']) != gindom.strip(rp['second_log']):
+    return (f'replaying the calls on the parsed operative config gave different arguments: first '
+            f'{gindom.strip(rp["first_log"])} replay {gindom.strip(rp["second_log"])}\n{rp.get("text1") or ""}')
+  if not rp['same_text'] and not any('err' in a for a in firsts):
+    return f'replay produced a different operative text: {rp.get("text1")!r} vs {rp.get("text2")!r}'
+  return None
+
+
 def nontrivial(case, impl):
+  if case.get('_kind') == 'macro':
+    return any(o['op'] == 'ecall' and 'ok' in r for o, r in zip(case['ops'], impl['out']))
   seen = {}
   for op, res in zip(case['ops'], impl['out']):
     if op['op'] == 'call' and 'ok' in res:
